@@ -11,6 +11,7 @@ MC_VarListsOne == { << "x", "y", "t" >> }
 MC_VarListsAll == { << "x", "y", "t" >>, << "t", "x" >>, << "y", "x" >> }
 
 MC_CutsFew == { NoCut, 1 }
+MC_CutsEdge == { NoCut, 1, 2, 5 }   \* 2 = index of the last stored point, 5 = beyond it
 MC_CutsMid == { NoCut, 0, 1 }
 MC_CutsAll == { NoCut, 0, 1, 5 }
 
